@@ -15,7 +15,7 @@ from __future__ import annotations
 
 from urllib.parse import urljoin
 
-from kit.h import P, run, mark, known, concretize
+from kit.h import P, run, mark, known, concretize, decode_point
 from kit import net as N
 from kit import env as E
 
@@ -380,14 +380,21 @@ def _location_body(front, status_i, loc_i, method_i, has_body, hv, container):
         E.uninstall_clock()
 
 
-def c05_location(front: int, status_i: int, loc_i: int, method_i: int, has_body: bool, hv: int, container: int) -> bool:
+def location_dims(part):
+    return [part["statuses"], part["locs"], part["methods"], [False, True], [(0, 0), (1, 1)] if part["tie"] else [(0, 0), (0, 1), (1, 0), (1, 1)]]
+
+
+def _location_point(idx):
+    status_i, loc_i, method_i, has_body, (hv, container) = decode_point(idx, location_dims(P))
+    return N._untraced(_location_body)(P.front, status_i, loc_i, method_i, has_body, hv, container)
+
+
+def c05_location(idx: int) -> bool:
     """
-    pre: front == P.front and status_i in P.statuses and 0 <= loc_i < len(LOCS) and loc_i in P.locs
-    pre: 0 <= method_i < len(METHODS) and method_i in P.methods and 0 <= hv <= 1 and 0 <= container <= 1
-    pre: (not P.tie) or hv == container
+    pre: 0 <= idx < P.n
     post: _
     """
-    return run(_location_body, front, status_i, loc_i, method_i, has_body, hv, container)
+    return run(_location_point, idx)
 
 
 # ---- closed chains ---------------------------------------------------------------------------------------------------
@@ -454,13 +461,30 @@ def _chain_body(kind, k, j, ror, layer, route_i, status_i):
         E.uninstall_clock()
 
 
-def c05_chain(kind: int, k: int, j: int, ror: bool, layer: int, route_i: int, status_i: int) -> bool:
+def chain_dims(part):
+    pols = []
+    for kind in part["kinds"]:
+        for k in (range(part["kmax"] + 1) if kind >= 2 else [0]):
+            for j in (range(part["kmax"] + 1) if kind == 5 else [0]):
+                for ror in ((True, False) if kind >= 3 else (True,)):
+                    pols.append((kind, k, j, ror))
+    return [pols, part["layers"], [0, 1, 2], part["statuses"]]
+
+
+def _chain_point(idx):
+    (kind, k, j, ror), layer, route_i, status_i = decode_point(idx, chain_dims(P))
+    return N._untraced(_chain_body)(kind, k, j, ror, layer, route_i, status_i)
+
+
+def c05_chain(idx: int) -> bool:
     """
-    pre: kind in P.kinds and 0 <= k <= P.kmax and 0 <= j <= P.kmax and (kind == 5 or j == 0) and (kind >= 2 or k == 0)
-    pre: (kind >= 3 or ror) and layer in P.layers and 0 <= route_i <= 2 and status_i in P.statuses
+    pre: 0 <= idx < P.n
     post: _
     """
-    return run(_chain_body, kind, k, j, ror, layer, route_i, status_i)
+    return run(_chain_point, idx)
+
+
+DIMS = {"c05_location": location_dims, "c05_chain": chain_dims}
 
 
 def setup():
@@ -473,7 +497,7 @@ def setup():
 
 def JOBS(tier):
     quick = tier == "quick"
-    t = 150 if quick else 900
+    t = 170 if quick else 900
     jobs = []
     for front in (0, 1, 2):
         for kind in range(7):
@@ -481,21 +505,19 @@ def JOBS(tier):
                 jobs.append({"func": "c05_policy", "timeout": t, "path_timeout": 60,
                              "part": {"front": front, "layers": [0, 1, 2], "kinds": [kind], "statuses": [1, 2, 3] if not quick else [1, 2],
                                       "kmax": 4 if kind == 2 else None, "loc": loc if front != 2 else 5}})
-        for st in ((0, 1, 2, 3, 4, 6, 8) if quick else range(len(STATUSES))):
-            jobs.append({"func": "c05_location", "timeout": t, "path_timeout": 60,
-                         "part": {"front": front, "statuses": [st], "locs": list(range(len(LOCS))), "tie": quick,
-                                  "methods": [0, 1] if quick else [0, 1, 2, 3, 4]}})
-    for kind in range(7):
-        jobs.append({"func": "c05_chain", "timeout": t, "path_timeout": 90,
-                     "part": {"kinds": [kind], "kmax": 2 if quick else 5, "layers": [0, 1], "statuses": [1] if quick else [0, 1, 2, 3, 4]}})
+        jobs.append({"func": "c05_location", "timeout": t, "path_timeout": 60, "samples": 1,
+                     "part": {"front": front, "statuses": list(range(len(STATUSES))), "locs": list(range(len(LOCS))), "tie": quick,
+                              "methods": [0, 1, 3] if quick else [0, 1, 2, 3, 4]}})
+    jobs.append({"func": "c05_chain", "timeout": t, "path_timeout": 90, "samples": 1,
+                 "part": {"kinds": list(range(7)), "kmax": 3 if quick else 6, "layers": [0, 1], "statuses": [1, 3] if quick else [0, 1, 2, 3, 4]}})
     return jobs
 
 
 EVIDENCE = {
     "bounds": {"quick": "one hop (re-entry cut) x 3 front-ends (PoolManager, ProxyManager over a forwarding proxy, bare pool) x 7 policy "
                         "spellings with UNBOUNDED integer budgets k,j >= 0 (plain-int spelling: k <= 4) x raise_on_redirect x 3 layers (request / constructor / both) x "
-                        "redirect flag x {302,303}; follow-up request: 9 statuses x 13 Location forms x {GET,POST} x body x 2 header "
-                        "spellings (dict / HTTPHeaderDict); closed endless chains over 1-3 origins with budgets <= 2",
+                        "redirect flag x {302,303}; follow-up request: 9 statuses x 13 Location forms x {GET,POST,HEAD} x body x 2 header "
+                        "spellings (dict / HTTPHeaderDict); closed endless chains over 1-3 origins with budgets <= 3",
                "thorough": "statuses {302,303,307}, Location forms {same origin, other host, path}, all 5 methods, chain budgets <= 5 and all redirecting statuses"},
     "outside": ["redirect graphs beyond one hop + inductive budget decrement, except the closed chains of <= 5 hops",
                 "tunnelled (https-through-proxy) redirects"],
